@@ -305,9 +305,21 @@ def large_cases(tier, seed):
 
 
 def large_check(case):
-    res = classical_check(case)
-    if res["status"] == "ok":
-        res["info"]["pool_branch"] = bool(case.get("pool"))
+    """classical_check plus an outside observation of whether toqito created a multiprocessing.Pool (no source hook)."""
+    import multiprocessing
+
+    real_pool = multiprocessing.Pool
+    used = []
+
+    def counting_pool(*a, **k):
+        used.append(1)
+        return real_pool(*a, **k)
+    multiprocessing.Pool = counting_pool
+    try:
+        res = classical_check(case)
+    finally:
+        multiprocessing.Pool = real_pool
+    res.setdefault("info", {})["pool_branch_taken"] = bool(used)
     return res
 
 
